@@ -35,6 +35,20 @@ theorem mapRes_mem {α β : Type} (f : α → Res β) : ∀ (xs : List α) (ys :
     · obtain ⟨w, hw, hfw⟩ := ih ys' hys z hz'
       exact ⟨w, by simp [hw], hfw⟩
 
+/-- element-wise: a list decoded by `f` re-emits through `mapRes g` and decodes to the same list. -/
+theorem list_fixed' {α : Type} (f : Value → Res α) (g : α → Res Value) (hfix : ∀ v a, f v = .ok a → ∃ y, g a = .ok y ∧ f y = .ok a) :
+    ∀ (vs : List Value) (as : List α), mapRes f vs = .ok as → ∃ ys, mapRes g as = .ok ys ∧ mapRes f ys = .ok as := by
+  intro vs
+  induction vs with
+  | nil => intro as h; simp [mapRes] at h; subst h; exact ⟨[], rfl, rfl⟩
+  | cons v vs ih =>
+    intro as h
+    rw [mapRes_cons_ok] at h
+    obtain ⟨a, as', ha, has, rfl⟩ := h
+    obtain ⟨ys, h1, h2⟩ := ih as' has
+    obtain ⟨y, hy1, hy2⟩ := hfix v a ha
+    exact ⟨y :: ys, by simp [mapRes, hy1, h1], by simp [mapRes, hy2, h2]⟩
+
 /-- a list of decoded signatures re-emits as a list of values that decodes to the same list. -/
 theorem sigs_fixed (sf : Value → Res CoseSignature) (hsf : ∀ v s, sf v = .ok s → SigFixBy sf s) :
     ∀ (a : List Value) (ss : List CoseSignature), mapRes sf a = .ok ss →
